@@ -282,8 +282,14 @@ theorem tag_rf (t : Option Nat) (x y : WItem) (r : Bytes) (hx : x.valid = true) 
 theorem action_rf (fd : FDec) (x y : WItem) (r : Bytes) (v' : Val) (hx : x.valid = true)
     (ht : untagW fd.a.tag x = some y) (hd : fd.dec (encW y ++ r) = .ok v' r) :
     action fd (encW x ++ r) = .ok (some v') r := by
-  unfold action
-  rw [Dec.bind_run, (tag_rf fd.a.tag x y r hx ht).1]
+  have hb : bareNull fd (encW x ++ r) = .ok false (encW x ++ r) := by
+    cases ht' : fd.a.tag with
+    | none => exact bareNull_untagged fd _ ht'
+    | some n =>
+      rw [ht'] at ht
+      cases x <;> simp [untagW] at ht
+      exact bareNull_start fd _ r (startOk_encW _ hx (by simp [isNullW]))
+  rw [action_of_not_bare _ _ hb, Dec.bind_run, (tag_rf fd.a.tag x y r hx ht).1]
   simp only [catchVariant, hd]
 
 theorem lookupVal_of_field : ∀ (fs : Fields) (vs : List Val) (b : FAttr) (u : FTy), (liveIdxs fs).Nodup →
